@@ -215,6 +215,13 @@ Theorem C06_compdb_build_spelling : forall d sfx, bld_rel_ok d sfx ->
 Proof. exact build_spelling. Qed.
 Print Assumptions C06_compdb_build_spelling.
 
+(* the build directory itself (the empty suffix: the include directory of a header generated at the top of the build
+   directory) is a single dot in all three, for every absolute normalised build directory other than the root *)
+Theorem C06_compdb_build_root : forall d bc, d_bld d = render 1 bc -> bc <> [] -> normal bc ->
+  stringify_path d RBld [] = dot /\ make_bld_spelling [] = dot.
+Proof. exact build_root_spelling. Qed.
+Print Assumptions C06_compdb_build_root.
+
 (* a path inside a flag (-I and a srcdir directory): the compdb string is the word sh reads from the quoted unit Make and
    Ninja write, once the srcdir reference is replaced by the same directory (C01_path_unit) *)
 Theorem C06_compdb_path_unit : forall uw d sfx, no_sq (d_src d) = true -> d_src d <> [] -> sfx <> [] ->
